@@ -3,6 +3,7 @@ from typing import Optional, cast
 from ..expressions import (
     AddExpression,
     ConstantExpression,
+    DivideExpression,
     EqualExpression,
     MathExpression,
     MultiplyExpression,
@@ -65,7 +66,7 @@ class RestateSubtractionRule(BaseRule):
                 return _OP_SUBTRACTION_NEGATIVE_CONST
 
             if (
-                node.right is not None
+                isinstance(node.right, (MultiplyExpression, DivideExpression))
                 and isinstance(node.right.left, ConstantExpression)
                 and node.right.left.value is not None
             ):
